@@ -94,7 +94,8 @@ def check_structure(cx, label, agg, nmol, mult, sigs):
 
 @harness("C03", "frenkel_matrix",
          quick=[dict(nmol=2, mult=1), dict(nmol=2, mult=2), dict(nmol=3, mult=2)],
-         thorough=[dict(nmol=n, mult=m) for n in (1, 2, 3, 4, 5) for m in (1, 2)],
+         thorough=[dict(nmol=n, mult=m) for n in (1, 2, 3, 4, 5) for m in (1, 2)
+                   if (n, m) != (1, 2)],   # a monomer has no two-exciton band (set_rwa averages an empty block: 0/0, unobservable),
          functions=FUNCS,
          bound="<=3 two-level molecules (thorough 5), multiplicity 1 and 2; ground and excited energies, couplings "
                "and dipole vectors symbolic",
@@ -146,7 +147,7 @@ def relabelling(cx, nmol, mult, perm):
 
 @harness("C03", "build_units",
          quick=[dict(nmol=2, mult=2, units="1/cm"), dict(nmol=2, mult=1, units="eV")],
-         thorough=[dict(nmol=2, mult=2, units=u) for u in ("1/cm", "eV", "THz", "meV", "nm", "J", "Hz", "2pi/fs",
+         thorough=[dict(nmol=2, mult=2, units=u) for u in ("1/cm", "eV", "THz", "meV", "nm", "J", "SI", "Ha", "a.u.",
                                                             "1/fs", "int")],
          functions=FUNCS + ["quantarhei/core/managers.py:Manager.convert_energy_2_internal_u",
                             "quantarhei/core/managers.py:Manager.convert_energy_2_current_u"],
